@@ -332,7 +332,7 @@ class C19(Prop):
                                      ["dur", 0], ["clone", 0], ["rt", 1], ["start", 0], ["start", 1], ["adv", 1], ["rt", 1],
                                      ["rt", 0], ["obs"], ["req", "u", "h0", d, 0, 0], ["obs"]]}
         # random
-        nrand = 600000 if deep else 30000
+        nrand = 250000 if deep else 30000
         for _ in range(nrand):
             yield self.random_case(rng)
 
